@@ -1,5 +1,7 @@
 import NibabelModel.Model.C06
 import NibabelModel.Lemmas.C06_NpSpec
+import NibabelModel.Model.C06Py
+import NibabelModel.Generated.C06Funcs
 import Driver.Util
 namespace Nb.Drv.C06
 open Nb Nb.C06
@@ -76,6 +78,38 @@ def handle : List String → String
           showList (f.toPy.sel n) ++ " " ++ toString (slice2len s n) ++ " " ++
             showList ((positiveSlice f).toPy.sel n)
       | _, _, _, _ => "bad-op"
+  -- the functions TRANSLATED FROM THE SOURCE (Generated/C06Funcs), run on the same arguments as the
+  -- real Python functions (validates translator + Basic/PyVal semantics on every run)
+  | ["gen", "fill_slicer", a, b] =>
+      match parseV? a, parseV? b with
+      | some a, some b => showM (Gen.C06F.fill_slicer a b)
+      | _, _ => "bad-op"
+  | ["gen", "full_slicer_len", a] =>
+      match parseV? a with
+      | some a => showM (Gen.C06F.full_slicer_len a)
+      | _ => "bad-op"
+  | ["gen", "slice2len", a, b] =>
+      match parseV? a, parseV? b with
+      | some a, some b => showM (Gen.C06F.slice2len a b)
+      | _, _ => "bad-op"
+  | ["gen", "positive_slice", a] =>
+      match parseV? a with
+      | some a => showM (Gen.C06F.positive_slice a)
+      | _ => "bad-op"
+  | ["gen", "threshold_heuristic", a, b, c, d] =>
+      match parseV? a, parseV? b, parseV? c, parseV? d with
+      | some a, some b, some c, some d => showM (Gen.C06F.threshold_heuristic a b c d)
+      | _, _, _, _ => "bad-op"
+  | ["gen", "optimize_slicer", a, b, c, d, e, heur] =>
+      match parseV? a, parseV? b, parseV? c, parseV? d, parseV? e with
+      | some a, some b, some c, some d, some e =>
+          if heur = "src" then
+            showM (Gen.C06F.optimize_slicer a b c d e
+              (fun x y z => Gen.C06F.threshold_heuristic x y z Gen.C06F.SKIP_THRESH))
+          else match parseHeur? heur with
+            | some h => showM (Gen.C06F.optimize_slicer a b c d e (liftH h))
+            | none => "bad-op"
+      | _, _, _, _, _ => "bad-op"
   | _ => "bad-op"
 
 end Nb.Drv.C06
